@@ -160,6 +160,11 @@ If several alignments are present in the input file and the output is a file
 						}
 					}
 				}
+				if subalign == nil {
+					err = fmt.Errorf("nothing is left of the alignment once [%d,%d[ is removed", start, start+len)
+					io.LogError(err)
+					return
+				}
 				writeAlign(subalign, f)
 				start += subseqstep
 				if subseqstep == 0 || (start+len) > al.Length() {
